@@ -269,18 +269,13 @@ func adapterSpec(c *Ctx, dn davNames, fn *ssa.Function, failing bool) DTXSpec {
 	}
 }
 
-func runC11(c *Ctx, pr *PropertyRun) {
+// davScopeTables: the responses emitted by the adapters' PropFind per Depth,
+// hierarchy level and ownership (C11.scope; C12 needs the same tables for
+// "a PROPFIND addressed to a principal or home-set path other than the
+// current user's exposes none of the current user's resources").
+func davScopeTables(c *Ctx, pr *PropertyRun, prop string, withWebdav bool) {
 	p := c.P
-	pr.Explanation = "Decided by decision tables extracted from the SSA of the current source (abstract interpretation; nothing is executed): (1) request forms: NewPropFindResponse refuses a propfind naming none of propname/allprop/prop with 400 and otherwise serves the form present; (2) accounting: for a prop request of up to 2 distinct names, each known/unknown/failing, exactly one EncodeProp per requested element — known: (200, value); getter error: (its status, empty element); unknown: (404, empty element) — propname lists every available name under 200 without values, allprop every available name with its value; Response.EncodeProp files each entry under the propstat of its status, one propstat per distinct status; " +
-		"(3) scope: for the WebDAV, CalDAV and CardDAV adapters, the responses emitted as a function of Depth in {0, 1, infinity}, the hierarchy level and whether the path is the current user's: exactly the addressed resource, plus the next level for Depth >= 1, plus all lower levels for infinity; nothing for a foreign principal or home-set path; (4) the Depth header: absent = infinity, invalid = 400, a non-XML body must be empty and means allprop (the dispatch table shared with C01); (5) every success path of PROPFIND writes 207 before the body; (6) the principal helper is compared with the generic handler on (4). " +
-		"NOT decided: duplicates in the request, well-formedness of the bytes produced by encoding/xml, arbitrary numbers of members (lists are bounded by 1-2)."
-	pr.Assumptions = append(pr.Assumptions, "the user's Backend returns without error in the scope tables (error propagation is C13/C01's)", "collections and objects lists have at most one element each (the loop bodies are uniform)")
-	pr.Trusted = append(pr.Trusted, "golang.org/x/tools/go/ssa v0.29.0")
-
-	c11Accounting(c, pr)
-	propSetTables(c, pr, "C11", []string{pkgWebdav, pkgCaldav, pkgCarddav})
-
-	scope := NewRule("C11", "C11.scope", "the responses emitted by the three adapters' PropFind as a function of Depth, hierarchy level and ownership equal the level table (E2)")
+	scope := NewRule(prop, prop+".scope", "the responses emitted by the three adapters' PropFind as a function of Depth, hierarchy level and ownership equal the level table (E2)")
 	scope.Exhaustive = true
 	scope.Bounds = "Depth in {0,1,infinity}; six levels; <= 1 collection, <= 1 object per collection"
 	pr.Rules = append(pr.Rules, scope)
@@ -311,7 +306,23 @@ func runC11(c *Ctx, pr *PropertyRun) {
 			scope.Unresolved("scope table of " + dn.short + " has fewer than 18 rows")
 		}
 	}
-	c11WebdavScope(c, scope)
+	if withWebdav {
+		c11WebdavScope(c, scope)
+	}
+}
+
+func runC11(c *Ctx, pr *PropertyRun) {
+	p := c.P
+	pr.Explanation = "Decided by decision tables extracted from the SSA of the current source (abstract interpretation; nothing is executed): (1) request forms: NewPropFindResponse refuses a propfind naming none of propname/allprop/prop with 400 and otherwise serves the form present; (2) accounting: for a prop request of up to 2 distinct names, each known/unknown/failing, exactly one EncodeProp per requested element — known: (200, value); getter error: (its status, empty element); unknown: (404, empty element) — propname lists every available name under 200 without values, allprop every available name with its value; Response.EncodeProp files each entry under the propstat of its status, one propstat per distinct status; " +
+		"(3) scope: for the WebDAV, CalDAV and CardDAV adapters, the responses emitted as a function of Depth in {0, 1, infinity}, the hierarchy level and whether the path is the current user's: exactly the addressed resource, plus the next level for Depth >= 1, plus all lower levels for infinity; nothing for a foreign principal or home-set path; (4) the Depth header: absent = infinity, invalid = 400, a non-XML body must be empty and means allprop (the dispatch table shared with C01); (5) every success path of PROPFIND writes 207 before the body; (6) the principal helper is compared with the generic handler on (4). " +
+		"NOT decided: duplicates in the request, well-formedness of the bytes produced by encoding/xml, arbitrary numbers of members (lists are bounded by 1-2)."
+	pr.Assumptions = append(pr.Assumptions, "the user's Backend returns without error in the scope tables (error propagation is C13/C01's)", "collections and objects lists have at most one element each (the loop bodies are uniform)")
+	pr.Trusted = append(pr.Trusted, "golang.org/x/tools/go/ssa v0.29.0")
+
+	c11Accounting(c, pr)
+	propSetTables(c, pr, "C11", []string{pkgWebdav, pkgCaldav, pkgCarddav})
+
+	davScopeTables(c, pr, "C11", true)
 
 	// 207 before the body
 	ms := NewRule("C11", "C11.207", "ServeMultiStatus writes 207 before the body and every successful PROPFIND/REPORT path ends in it (E2/E4)")
@@ -741,6 +752,7 @@ func runC12(c *Ctx, pr *PropertyRun) {
 		"NOT decided: the classification arithmetic itself (path.Clean, TrimPrefix, Split over all prefixes and spellings) — string values at run time; not applicable for that clause."
 	pr.Assumptions = append(pr.Assumptions, "resourceTypeAtPath classifies by depth below the prefix (its arithmetic is not decided)")
 	pr.Trusted = append(pr.Trusted, "golang.org/x/tools/go/ssa v0.29.0")
+	davScopeTables(c, pr, "C12", false)
 	ops := NewRule("C12", "C12.level-ops", "level -> backend operation (or refusal) for every adapter method, with the request path unchanged (E2)")
 	ops.Exhaustive = true
 	pr.Rules = append(pr.Rules, ops)
